@@ -37,6 +37,9 @@ CONFIGS = [
     (('x-amz-meta-a',), ('x-amz-meta-b',), ()),
     ((), (), ('',)),
     (('host',), (), ('h',)),
+    ((), (), ('x-amz-meta-', 'x-amz-')),
+    ((), (), ('x-amz-', 'x-amz-meta-')),
+    (('etag', 'content-type'), ('etag',), ('x-amz-meta-a', 'x-')),
 ]
 PRESENCE = [
     ('host', 'x-amz-date'),
@@ -221,10 +224,14 @@ def native_case(rp, inp):
     kind = 'slice' if inp['route'] == 'slice' else 'vec'
     reqs = {'kind': kind, 'always': inp['always'], 'if_in': inp['if_in'], 'prefixes': inp['prefixes']}
     if inp['route'] == 'ops':
-        reqs = {'kind': 'vec', 'always': [], 'if_in': [], 'prefixes': [],
-                'ops': [['add_always_present', 'X-Decoy']] + [['add_always_present', x] for x in inp['always']] +
-                       [['add_if_in_request', x] for x in inp['if_in']] + [['add_prefix', x] for x in inp['prefixes']] +
-                       [['remove_always_present', 'x-DECOY']]}
+        # exactly the sequence of operations the MIRSE harness performs (build_requirements, route 'ops')
+        ops = [['add_always_present', 'X-Decoy'], ['add_prefix', 'X-Dec'], ['add_if_in_request', 'Etag-Decoy']]
+        ops += [['add_always_present', x] for x in inp['always']]
+        for x in inp['if_in']:
+            ops += [['add_if_in_request', x], ['add_if_in_request', x]]
+        ops += [['add_prefix', x] for x in inp['prefixes']]
+        ops += [['remove_always_present', 'x-DECOY'], ['remove_prefix', 'x-dec'], ['remove_if_in_request', 'ETAG-decoy']]
+        reqs = {'kind': 'vec', 'always': [], 'if_in': [], 'prefixes': [], 'ops': ops}
     nat = native_validate(rp, inp['request'], 'us-east-1', 'service', T0, provider={'result': {'signing_key_hex': '00' * 32}}, reqs=reqs)
     res = nat.get('result', {})
     return 'ok' if 'ok' in res else res.get('err', {}).get('kind', 'panic')
@@ -293,7 +300,7 @@ def describe(f):
 
 def bounds(tier):
     return ('%d requirement configurations (always / if-in-request / prefix sets over content-type, etag, x-amz-meta-a/b, x-other, prefixes x-amz-, '
-            'x-amz-meta, x-o, h and the empty prefix) x %d header presence sets x %s signed-header subsets, each through the slice, vec and add/remove '
+            'x-amz-meta, x-o, h, the empty prefix, nested prefixes in both declaration orders) x %d header presence sets x %s signed-header subsets, each through the slice, vec and add/remove '
             'construction routes%s; the letter case of every declared name symbolic (2^letters assignments per shape); requests correctly signed '
             'with real digests; host unsigned and :authority variants' % (
                 len(CONFIGS), len(PRESENCE), 'sampled' if tier == 'quick' else 'all', ' (one route per shape)' if tier == 'quick' else ''))
